@@ -1,11 +1,25 @@
 /-
-  C15 — non-convergence ends in a bounded panic.  Part 1: the iteration stamp
-  (`src/cycle.rs: IterationStamp`, translated in `Gen/Stamp.lean`).
+  C15 — non-convergence ends in a bounded panic.
+  Part 1: the iteration stamp (`src/cycle.rs: IterationStamp`, translated in `Gen/Stamp.lean`,
+  regenerated from the source on every run): `stamp_increment`, `stamp_none`, `stamp_initial`,
+  `stamp_reachable_le`.
+  Part 2: the head loop of `Model/Cycle.lean` (`executeMaybeIterate`): `c15_bounded`,
+  `c15_poison_then_ok`.
+
+  Note on `stamp_none`: as literally stated in the design (`iteration s ≥ MAX → increment s =
+  none`) it is FALSE for `iteration s = 255` (the low byte wraps to 0, `stamp_wrap_255`); the
+  theorem carries the hypothesis `iteration s < 255`, and `stamp_reachable_le` shows that no
+  stamp built by `initial`/`increment_iteration` has an iteration above 200.
+
+  The body language of the model is monotone, so no *program* of the model diverges; the
+  non-vacuity example for `panic tooManyIterations` therefore drives the loop with an
+  oscillating fetch function (`flipRead`), which is what `c15_bounded` quantifies over.
 -/
 import SalsaVerif.Gen.Stamp
+import SalsaVerif.Model.Cycle
 
 namespace SalsaVerif.Props.C15
-open SalsaVerif.Gen.Stamp
+open SalsaVerif.Gen.Stamp SalsaVerif.Model.Cycle
 
 private theorem iter_eq (s : Nat) : IterationStamp.iteration s = s % 256 := by
   simp [IterationStamp.iteration]
@@ -108,5 +122,207 @@ theorem stamp_reachable_le (c : Nat) (hc : c < 256) (k s : Nat)
 
 example : incrN 200 (IterationStamp.initial 3) = some (3 * 256 + 200) := by decide
 example : incrN 201 (IterationStamp.initial 3) = none := by decide
+
+/-! ## the head loop (`Model.Cycle.executeMaybeIterate`) -/
+
+/-- an error of the query function comes out of a fetch. -/
+theorem evalM_error (env : Nat → Nat) (read : Nat → St → Res Fetched) :
+    ∀ (e : Expr) (s : St) (err : Panic), evalM env read e s = .error err →
+      ∃ c s0, read c s0 = .error err := by
+  intro e
+  induction e with
+  | const c => intro s err h; simp [evalM] at h
+  | input i => intro s err h; simp [evalM] at h
+  | call j =>
+    intro s err h
+    simp only [evalM] at h
+    cases hr : read j s with
+    | error e' => rw [hr] at h; injection h with h; subst h; exact ⟨j, s, hr⟩
+    | ok r => obtain ⟨w, hs1, s1⟩ := r; rw [hr] at h; cases h
+  | union a b iha ihb =>
+    intro s err h
+    simp only [evalM] at h
+    cases ha : evalM env read a s with
+    | error e' => rw [ha] at h; injection h with h; subst h; exact iha s _ ha
+    | ok r =>
+      obtain ⟨x, h1, s1⟩ := r
+      rw [ha] at h
+      simp only at h
+      cases hb : evalM env read b s1 with
+      | error e' => rw [hb] at h; injection h with h; subst h; exact ihb s1 _ hb
+      | ok r2 => obtain ⟨y, h2, s2⟩ := r2; rw [hb] at h; cases h
+  | inter a b iha ihb =>
+    intro s err h
+    simp only [evalM] at h
+    cases ha : evalM env read a s with
+    | error e' => rw [ha] at h; injection h with h; subst h; exact iha s _ ha
+    | ok r =>
+      obtain ⟨x, h1, s1⟩ := r
+      rw [ha] at h
+      simp only at h
+      cases hb : evalM env read b s1 with
+      | error e' => rw [hb] at h; injection h with h; subst h; exact ihb s1 _ hb
+      | ok r2 => obtain ⟨y, h2, s2⟩ := r2; rw [hb] at h; cases h
+  | ite i a b iha ihb =>
+    intro s err h
+    simp only [evalM] at h
+    split at h
+    · exact iha s err h
+    · exact ihb s err h
+
+/-- **c15_bounded.**  A run of the head loop that starts at iteration stamp `stamp` needs at
+    most `MAX_ITERATIONS + 1 − iteration stamp` evaluations of the body (so at most
+    `MAX_ITERATIONS` increments of the stamp from `initial c`): more fuel changes nothing, and
+    the loop itself never runs out of fuel — it ends in a value (completed, participant, or
+    converged head), in `panic tooManyIterations`, or in a panic that came out of a fetch.
+    Structural recursion on `fuel = 201 − iteration`; stated with the literal `201 = 200 + 1`
+    so that an edit of `MAX_ITERATIONS` breaks the proof. -/
+theorem c15_bounded (P : Prog) (env : Nat → Nat) (read : Nat → St → Res Fetched) (j : Nat) :
+    ∀ (fuel stamp : Nat) (s : St), stamp < 2^16 → IterationStamp.iteration stamp ≤ 200 →
+      fuel + IterationStamp.iteration stamp = 201 →
+      (∀ extra, executeMaybeIterate P env read j (fuel + extra) stamp s
+                = executeMaybeIterate P env read j fuel stamp s) ∧
+      (∀ err, executeMaybeIterate P env read j fuel stamp s = .error err →
+        err.cls = .tooManyIterations ∨ ∃ c s0, read c s0 = .error err) := by
+  intro fuel
+  induction fuel with
+  | zero => intro stamp s _ h1 h2; omega
+  | succ fuel ih =>
+    intro stamp s hs hit hsum
+    have hrec : ∀ stamp', IterationStamp.increment_iteration stamp = some stamp' →
+        stamp' < 2^16 ∧ IterationStamp.iteration stamp' ≤ 200 ∧
+        fuel + IterationStamp.iteration stamp' = 201 := by
+      intro stamp' hinc
+      have := stamp_increment stamp stamp' hs hit hinc
+      omega
+    constructor
+    · intro extra
+      have e : fuel + 1 + extra = (fuel + extra) + 1 := by omega
+      rw [e]
+      rw [executeMaybeIterate, executeMaybeIterate]
+      cases hev : evalM env read (P.node j).body s with
+      | error e' => rfl
+      | ok r =>
+        obtain ⟨v1, hs1, s1⟩ := r
+        simp only
+        cases hl : s1.prov.lookup j with
+        | none => rfl
+        | some last =>
+          simp only
+          split
+          · rfl
+          · split
+            · rfl
+            · cases hinc : IterationStamp.increment_iteration stamp with
+              | none => rfl
+              | some stamp' =>
+                obtain ⟨a, b, c⟩ := hrec stamp' hinc
+                exact (ih stamp' _ a b c).1 extra
+    · intro err h
+      rw [executeMaybeIterate] at h
+      cases hev : evalM env read (P.node j).body s with
+      | error e' =>
+        rw [hev] at h
+        injection h with h; subst h
+        exact Or.inr (evalM_error env read _ s _ hev)
+      | ok r =>
+        obtain ⟨v1, hs1, s1⟩ := r
+        rw [hev] at h
+        simp only at h
+        cases hl : s1.prov.lookup j with
+        | none =>
+          rw [hl] at h
+          simp only at h
+          split at h <;> cases h
+        | some last =>
+          rw [hl] at h
+          simp only at h
+          split at h
+          · cases h
+          · split at h
+            · cases h
+            · cases hinc : IterationStamp.increment_iteration stamp with
+              | none =>
+                rw [hinc] at h
+                injection h with h; subst h
+                exact Or.inl rfl
+              | some stamp' =>
+                rw [hinc] at h
+                obtain ⟨a, b, c⟩ := hrec stamp' hinc
+                exact (ih stamp' _ a b c).2 err h
+
+/-- the loop as `execute` starts it: fuel `loopFuel = MAX_ITERATIONS + 1 = 201`, stamp
+    `initial 0`.  It never reports `outOfFuel` by itself. -/
+theorem c15_bounded_execute (P : Prog) (env : Nat → Nat) (read : Nat → St → Res Fetched)
+    (j : Nat) (s : St) (err : Panic)
+    (h : executeMaybeIterate P env read j loopFuel (IterationStamp.initial 0) s = .error err) :
+    err.cls = .tooManyIterations ∨ ∃ c s0, read c s0 = .error err :=
+  (c15_bounded P env read j 201 (IterationStamp.initial 0) s (by decide) (by decide)
+    (by decide)).2 err h
+
+example : loopFuel = 201 := by decide
+
+/-- non-vacuity of the `tooManyIterations` branch: a fetch whose answer flips with the iteration
+    count never converges; the loop stops after exactly 200 increments of the stamp. -/
+def flipRead : Nat → St → Res Fetched := fun c s =>
+  .ok ((s.iters + 1) % 2, [c],
+    { s with prov := if (s.prov.lookup c).isSome then s.prov else (c, 0) :: s.prov })
+
+def selfP : Prog := ⟨[⟨.fixpoint false, .call 0⟩]⟩
+
+def errOf {α : Type} : Res α → Option Panic
+  | .ok _ => none
+  | .error e => some e
+
+set_option maxRecDepth 20000 in
+example : errOf (executeMaybeIterate selfP (fun _ => 0) flipRead 0 loopFuel
+    (IterationStamp.initial 0) ⟨[0], [], [], [], [], 0⟩) = some ⟨.tooManyIterations, [0]⟩ := by
+  decide
+
+/- … while with one unit of fuel less the loop would have stopped for lack of fuel: the
+    bound `201` is tight. -/
+set_option maxRecDepth 20000 in
+example : errOf (executeMaybeIterate selfP (fun _ => 0) flipRead 0 200
+    (IterationStamp.initial 0) ⟨[0], [], [], [], [], 0⟩) = some ⟨.outOfFuel, [0]⟩ := by
+  decide
+
+/-- **c15_poison_then_ok** (model level).  After a request that panicked (`tooManyIterations`
+    or any other class): the finalised memos are unchanged; every recovering frame that was
+    unwound is poisoned, and a request for a poisoned node in the same revision is answered
+    `panic propagated` without evaluating anything; poison does not outlive the revision — after
+    a write the database is the empty one, so the same functions evaluate as from scratch. -/
+theorem c15_poison_then_ok (P : Prog) (env : Nat → Nat) (db db' : Db) (j : Nat) (c : PanicClass)
+    (h : db.get P env j = (.panic c, db')) :
+    db'.final = db.final ∧
+    (∃ e, eval P env db.final db.poisoned j = .error e ∧
+      db'.poisoned = poisonedBy P e.stack ++ db.poisoned) ∧
+    (∀ k ∈ db'.poisoned, db'.get P env k = (.panic .propagated, db')) ∧
+    db'.newRevision = Db.empty := by
+  unfold Db.get at h
+  cases he : eval P env db.final db.poisoned j with
+  | ok r => obtain ⟨v, s⟩ := r; rw [he] at h; cases h
+  | error e =>
+    rw [he] at h
+    injection h with h1 h2
+    subst h2
+    refine ⟨rfl, ⟨e, rfl, rfl⟩, ?_, rfl⟩
+    intro k hk
+    have hc : (poisonedBy P e.stack ++ db.poisoned).contains k = true := by simpa using hk
+    have hf : ∀ exec, fetch P exec k
+        (St.init db.final (poisonedBy P e.stack ++ db.poisoned)) = .error ⟨.propagated, []⟩ := by
+      intro exec
+      unfold fetch
+      have : (St.init db.final (poisonedBy P e.stack ++ db.poisoned)).poisoned.contains k = true := hc
+      rw [if_pos this]
+      rfl
+    show Db.get P env ⟨db.final, poisonedBy P e.stack ++ db.poisoned⟩ k = _
+    unfold Db.get eval
+    simp only [hf]
+    have hnil : poisonedBy P [] = [] := rfl
+    rw [hnil]; rfl
+
+/-- a poisoned database in which the poisoned node is asked again, and the next revision. -/
+example : (Db.get selfP (fun _ => 0) ⟨[], [0]⟩ 0).1 = .panic .propagated := by decide
+example : ((⟨[], [0]⟩ : Db).newRevision.get selfP (fun _ => 0) 0).1 = .value 0 0 := by decide
 
 end SalsaVerif.Props.C15
